@@ -219,12 +219,17 @@ Qed.
       plain parser's termination on the do_actions=True call says nothing about that extra pass; `peek_total` says the
       do_actions=False pass of every Forward body answers (same fuel) wherever its do_actions=True pass does.  It is
       proved here only for Forward bodies that are tokens (`C03_peek_total_tokens`); it holds for action-free bodies (both
-      passes make the same calls) but that is not proved. *)
+      passes make the same calls) but that is not proved.
+      Which flag can be the first one on a call the plain parser answers: never `key_error` (unconditionally, 7 below),
+      and never `seed_returned` provided the Forward bodies are location-monotone (`loc_mono G s`: a do_actions=False
+      match of a body never ends before its start; a hypothesis, the framework only has upper bounds on locations);
+      `seed_read`, `peek_tainted`, `peek_replaced`, `peek_error` can (F-03b..e). *)
 Theorem C03_complete_upto_flag_partial : forall (G : env) (tbl : nat -> option nat) (s : str) f fuel (m : memo) (a : args) o,
   forallb (fw tbl) G = true -> fw tbl (a_e a) = true -> a_s a = s ->
   memo_ok G tbl s m -> peek_total G s ->
   parse (step G) f a = Some o -> f <= fuel ->
   exists o' m' fl, parse_lr_x G fuel m a = Some (o', m', fl) /\
+    key_error fl = false /\ (loc_mono G s -> seed_returned fl = false) /\
     (fl_clean fl = true ->
        o' = o /\ memo_ok G tbl s m' /\ parse_lr_t G fuel m a = Some (o, m', fl0) /\ parse_lr G fuel m a = Some (o, m')).
 Proof. exact lr_complete_x. Qed.
@@ -236,6 +241,7 @@ Theorem C03_transparent_complete_partial : forall (G : env) (tbl : nat -> option
   (exists m', parse_lr_t G fuel m a = Some (o, m', fl0) /\ parse_lr G fuel m a = Some (o, m') /\ memo_ok G tbl s m')
   \/
   (exists o' m' fl, parse_lr_x G fuel m a = Some (o', m', fl) /\ fl_clean fl = false /\
+     key_error fl = false /\ (loc_mono G s -> seed_returned fl = false) /\
      forall fuel' o'' m'', parse_lr_t G fuel' m a <> Some (o'', m'', fl0)).
 Proof. exact lr_complete. Qed.
 
